@@ -3,6 +3,7 @@ mod c02;
 mod c03;
 mod c11;
 mod codec;
+mod fault;
 mod opts;
 mod mem;
 mod part;
@@ -95,6 +96,11 @@ fn main() {
             let idx: usize = args.get(5).and_then(|s| s.parse().ok()).unwrap_or(0);
             // bound the address space of the child: a writer that tries to allocate terabytes must not take the machine down
             opts::run_point(&mut rep, &mut rng, thorough, idx);
+            rep
+        }
+        "C05" => {
+            let mut rep = Report::new("C05", "valid streams of every format (XZ single/multi, LZIP, LZMA2, LZMA x4) x every truncation point x an I/O error injected at every read-call index x random short-read/Interrupted scripts; writers x short-writing/Interrupted sinks x sink errors at random write-call indices; all cases non-trivial; distinct = distinct stream / writer case");
+            fault::run(&mut rep, &mut rng, thorough);
             rep
         }
         "C12" => {
